@@ -1,0 +1,162 @@
+//! Verification hooks, compiled only with the off-by-default `verif` feature.
+//!
+//! The store calls into this module at a fixed set of points: device writes and
+//! fsyncs (observe / fail), scheduling points between critical sections, extent
+//! pin / unpin, and wherever wall time is read. With no monitor installed every
+//! hook is one relaxed atomic load.
+
+use parking_lot::RwLock;
+use std::cell::Cell;
+use std::sync::atomic::{AtomicBool, AtomicU64, Ordering};
+use std::sync::Arc;
+
+/// (st_dev, st_ino) of the device file a hook refers to.
+pub type FileId = (u64, u64);
+
+#[derive(Clone, Copy, Debug, PartialEq, Eq)]
+pub enum IoDecision {
+    /// Perform the call normally.
+    Proceed,
+    /// Do not perform the call; report this errno.
+    FailBefore(i32),
+    /// Perform the call, then report this errno.
+    FailAfter(i32),
+}
+
+pub trait Monitor: Send + Sync {
+    /// A write of `data` at byte `offset` is about to be issued. `path` is
+    /// "sync" (pwrite), "uring" (io_uring SQE, decision ignored) or "direct".
+    fn io_write(&self, _file: FileId, _offset: u64, _data: &[u8], _path: &'static str) -> IoDecision {
+        IoDecision::Proceed
+    }
+    /// An fsync is about to be issued.
+    fn io_fsync(&self, _file: FileId) -> IoDecision {
+        IoDecision::Proceed
+    }
+    /// The fsync returned; `ok` is the real outcome (false also when skipped).
+    fn io_fsync_done(&self, _file: FileId, _ok: bool) {}
+    /// A named scheduling point between critical sections.
+    fn sched(&self, _point: &'static str, _a: u64, _b: u64) {}
+    /// A reader holds `[sector, sector+blocks)` pinned and has loaded the sector.
+    fn extent_pinned(&self, _file: FileId, _sector: u64, _blocks: u64) {}
+    /// The reader is about to drop that pin.
+    fn extent_unpinned(&self, _file: FileId, _sector: u64, _blocks: u64) {}
+}
+
+static ACTIVE: AtomicBool = AtomicBool::new(false);
+static MONITOR: RwLock<Option<Arc<dyn Monitor>>> = RwLock::new(None);
+static FORCE_SYNC_IO: AtomicBool = AtomicBool::new(false);
+static CLOCK_OFFSET_NS: AtomicU64 = AtomicU64::new(0);
+
+thread_local! {
+    static THREAD_NOW: Cell<u64> = const { Cell::new(0) };
+    static THREAD_FORCE_SYNC_IO: Cell<bool> = const { Cell::new(false) };
+}
+
+pub fn install(monitor: Arc<dyn Monitor>) {
+    *MONITOR.write() = Some(monitor);
+    ACTIVE.store(true, Ordering::Release);
+}
+
+pub fn uninstall() {
+    ACTIVE.store(false, Ordering::Release);
+    *MONITOR.write() = None;
+}
+
+#[inline]
+fn monitor() -> Option<Arc<dyn Monitor>> {
+    if !ACTIVE.load(Ordering::Relaxed) {
+        return None;
+    }
+    MONITOR.read().clone()
+}
+
+#[inline]
+pub fn io_write(file: FileId, offset: u64, data: &[u8], path: &'static str) -> IoDecision {
+    match monitor() {
+        Some(monitor) => monitor.io_write(file, offset, data, path),
+        None => IoDecision::Proceed,
+    }
+}
+
+#[inline]
+pub fn io_fsync(file: FileId) -> IoDecision {
+    match monitor() {
+        Some(monitor) => monitor.io_fsync(file),
+        None => IoDecision::Proceed,
+    }
+}
+
+#[inline]
+pub fn io_fsync_done(file: FileId, ok: bool) {
+    if let Some(monitor) = monitor() {
+        monitor.io_fsync_done(file, ok);
+    }
+}
+
+#[inline]
+pub fn sched(point: &'static str, a: u64, b: u64) {
+    if let Some(monitor) = monitor() {
+        monitor.sched(point, a, b);
+    }
+}
+
+#[inline]
+pub fn extent_pinned(file: FileId, sector: u64, blocks: u64) {
+    if let Some(monitor) = monitor() {
+        monitor.extent_pinned(file, sector, blocks);
+    }
+}
+
+#[inline]
+pub fn extent_unpinned(file: FileId, sector: u64, blocks: u64) {
+    if let Some(monitor) = monitor() {
+        monitor.extent_unpinned(file, sector, blocks);
+    }
+}
+
+/// Make every `DiskIO` created from now on (process-wide) skip io_uring.
+pub fn set_force_sync_io(force: bool) {
+    FORCE_SYNC_IO.store(force, Ordering::Release);
+}
+
+/// Same, for `DiskIO`s created by the calling thread only.
+pub fn set_thread_force_sync_io(force: bool) {
+    THREAD_FORCE_SYNC_IO.with(|cell| cell.set(force));
+}
+
+#[inline]
+pub fn force_sync_io() -> bool {
+    FORCE_SYNC_IO.load(Ordering::Acquire) || THREAD_FORCE_SYNC_IO.with(|cell| cell.get())
+}
+
+/// Process-wide monotone offset added to wall time wherever the store reads it.
+pub fn advance_clock_ns(delta: u64) {
+    CLOCK_OFFSET_NS.fetch_add(delta, Ordering::AcqRel);
+}
+
+/// Replace wall time, for reads made by the calling thread, with `now_ns`
+/// (0 removes the override).
+pub fn set_thread_now_ns(now_ns: u64) {
+    THREAD_NOW.with(|cell| cell.set(now_ns));
+}
+
+/// Wall time as the store should see it; always `Some` (an `Option` so that the
+/// call site can stay an added early return).
+pub fn wall_now_ns() -> Option<u64> {
+    let real = std::time::SystemTime::now()
+        .duration_since(std::time::UNIX_EPOCH)
+        .unwrap_or_default()
+        .as_nanos() as u64;
+    Some(now_ns(real))
+}
+
+/// The time the store should use given the real wall time `real_ns`.
+#[inline]
+pub fn now_ns(real_ns: u64) -> u64 {
+    let thread_now = THREAD_NOW.with(|cell| cell.get());
+    if thread_now != 0 {
+        return thread_now;
+    }
+    real_ns.saturating_add(CLOCK_OFFSET_NS.load(Ordering::Acquire))
+}
